@@ -1,2 +1,135 @@
-(* C09 Exec — stub, being written *)
+(* C09 Exec -- glue used by the generated case files.
+   (Q) verdict terms evaluated by vm_compute on exact rationals (binary64 values as n # d): output
+       ranges, finiteness (a non-finite output arrives as None), unit length, container forms,
+       shiftlon/shiftra (model on exact rationals + the property checker).
+   (R) statements of the per-case interval certificates and the tactic that closes them.
+   Depends on Gen/Model/Spec only (not on the proofs), so that failing inputs can still be searched
+   for when a regenerated constant or shape flag breaks a proof. *)
+From Coq Require Import Reals QArith Qround Qabs List.
+From Interval Require Import Tactic.
+From EsVerif.Common Require Import Base.
 From EsVerif.C09 Require Import Gen Model Spec.
+Import ListNotations.
+
+(* ------------------------------------------------------------------ (Q) exact checks *)
+Open Scope Q_scope.
+
+Definition oq := option Q.     (* None: the implementation returned nan or +-inf *)
+
+Definition both (f : Q -> Q -> bool) (a b : oq) : bool :=
+  match a, b with Some x, Some y => f x y | _, _ => false end.
+
+(* euler family, rotate, xyz2eq(deg), sdss2eq: finite, lon in [0,360], lat in [-90,90] *)
+Definition lonlat_ok (p : oq * oq) : bool := both lonlat_range_check (fst p) (snd p).
+(* xyz2eq(rad): finite, ra in [0, 2 pi], dec in [-pi/2, pi/2]; decided with rational bounds of pi
+   that lie within 1e-15 of it on the safe side of every binary64 number near the bounds *)
+Definition pi_hi : Q := 3141592653589794 # 1000000000000000.
+Definition lonlat_rad_ok (p : oq * oq) : bool :=
+  both (fun lon lat => q_in 0 (2 * pi_hi) lon && q_in (- (pi_hi / 2)) (pi_hi / 2) lat) (fst p) (snd p).
+Definition sdss_ok (p : oq * oq) : bool := both sdss_range_check (fst p) (snd p).
+Definition unit_ok (v : oq * oq * oq) : bool :=
+  match v with (Some x, Some y, Some z) => unit_len_check x y z | _ => false end.
+
+Definition oq_eqb (a b : oq) : bool :=
+  match a, b with Some x, Some y => Qeq_bool x y | None, None => true | _, _ => false end.
+Definition pair_same (p q : oq * oq) : bool := oq_eqb (fst p) (fst q) && oq_eqb (snd p) (snd q).
+Definition triple_same (p q : oq * oq * oq) : bool :=
+  oq_eqb (fst (fst p)) (fst (fst q)) && oq_eqb (snd (fst p)) (snd (fst q)) && oq_eqb (snd p) (snd q).
+
+Fixpoint all_pairs (f : (oq * oq) -> bool) (l : list (oq * oq)) : bool :=
+  match l with [] => true | p :: t => f p && all_pairs f t end.
+Fixpoint all_same2 (l1 l2 : list (oq * oq)) : bool :=
+  match l1, l2 with
+  | [], [] => true
+  | p :: t1, q :: t2 => pair_same p q && all_same2 t1 t2
+  | _, _ => false
+  end.
+
+(* one array call [arr] and the same points one by one as scalars [sca]: every output accepted by
+   [f], and both container forms return the same numbers *)
+Definition forms_ok (f : (oq * oq) -> bool) (arr sca : list (oq * oq)) : bool :=
+  all_pairs f arr && all_same2 arr sca.
+
+Fixpoint all_triples (l : list (oq * oq * oq)) : bool :=
+  match l with [] => true | p :: t => unit_ok p && all_triples t end.
+Fixpoint all_same3 (l1 l2 : list (oq * oq * oq)) : bool :=
+  match l1, l2 with
+  | [], [] => true
+  | p :: t1, q :: t2 => triple_same p q && all_same3 t1 t2
+  | _, _ => false
+  end.
+Definition xyz_forms_ok (arr sca : list (oq * oq * oq)) : bool := all_triples arr && all_same3 arr sca.
+
+(* range checks of eq2sdss / sdss2eq on exact rationals (the bounds are those of Gen.v: 0,360,-90,90,
+   -180,180 -- Proofs.sdss_ranges_eq) *)
+Definition eq2sdss_accepts (ra dec : Q) : bool := q_in 0 360 ra && q_in (-90) 90 dec.
+Definition sdss2eq_accepts (cl ce : Q) : bool := q_in (-90) 90 cl && q_in (-180) 180 ce.
+(* the implementation checks min/max of the whole array *)
+Fixpoint all_accept (f : Q -> Q -> bool) (l : list (Q * Q)) : bool :=
+  match l with [] => true | (a, b) :: t => f a b && all_accept f t end.
+
+(* ------------------------------------------------------------------ shiftlon / shiftra *)
+(* distance on the circle R/360 *)
+Definition circ_dist (x y : Q) : Q :=
+  let d := x - y in
+  Qabs (d - 360 * inject_Z (Qfloor (d / 360 + (1 # 2)))).
+
+(* the checker of the property with a tolerance for binary64 rounding of the sums: the result lies
+   in the stated interval (decided exactly) and differs from lon - shift by a multiple of 360
+   up to tol; tol = 0 is Spec.shiftlon_check *)
+Definition shiftlon_check_tol (tol : Q) (lon : Q) (shift : option Q) (wrap : bool) (out : Q) : bool :=
+  match shift with
+  | Some s => Qle_bool (circ_dist out (lon - s)) tol && q_in_ho 0 360 out
+  | None => if wrap then Qle_bool (circ_dist out lon) tol && q_in (-180) 180 out
+            else Qeq_bool out lon
+  end.
+
+Definition shift_agree (tol : Q) (lon : Q) (shift : option Q) (wrap : bool) (out : Q) : bool :=
+  Qle_bool (circ_dist out (shiftlon lon shift wrap)) tol.
+
+Definition shift_verdict (exact : bool) (tol : Q) (lon : Q) (shift : option Q) (wrap : bool) (out : oq) : Z :=
+  match out with
+  | None => 3%Z
+  | Some o =>
+      verdict (shift_agree (if exact then 0 else tol) lon shift wrap o)
+              (if exact then shiftlon_check lon shift wrap o else shiftlon_check_tol tol lon shift wrap o)
+  end.
+
+Fixpoint zmax_list (l : list Z) : Z := match l with [] => 0%Z | x :: t => Z.max x (zmax_list t) end.
+
+(* ------------------------------------------------------------------ (R) certificates *)
+Open Scope R_scope.
+
+(* chord^2 between two vectors at most e2 *)
+Definition near2 (e2 : R) (u v : vec) : Prop := chord2 u v <= e2.
+(* model tie: 1e-12 rad on the sky / in space *)
+Definition tie2 : R := 1 / 1000000000000000000000000.
+Definition tie (u v : vec) : Prop := near2 tie2 u v.
+(* the great-circle angle for pairs in the same / in opposite hemispheres (Geometry.sep_is_angle) *)
+Definition sep_far (u v : vec) : R := PI - sep u (vopp v).
+
+Definition sep_kept (far : bool) (t : R) (U1 U2 u1 u2 : vec) : Prop :=
+  if far then Rabs (sep_far U1 U2 - sep_far u1 u2) <= t else Rabs (sep U1 U2 - sep u1 u2) <= t.
+
+Definition xyzv (x y z : R) : vec := (x, y, z).
+
+(* direction of survey coordinates given in degrees, rotated back to the equatorial frame *)
+Definition sdss_dir (cl ce : R) : vec := sdss_unit (cl * D2R) (ce * D2R).
+Definition eq_in_sdss_frame (ra dec : R) : vec := Rz (- sdss_node) (unit_deg ra dec).
+(* eq2xyz in closed form *)
+Definition xyz_model (deg stomp : bool) (ra dec : R) : vec := eq2xyz_R deg stomp ra dec.
+Definition unit_of (deg : bool) (lon lat : R) : vec := if deg then unit_deg lon lat else unit_rad lon lat.
+
+Ltac c09_unfold :=
+  cbv [within_sky near2 tie tie2 sep_kept sep_far sep chord2 chord_of tol5 tol9 unit_deg unit_rad unit_of xyzv
+       euler_dir euler_norm euler_xyz euler_lin Rz Rx_sc scale vopp doc_row row_inv rotate_row
+       euler_row nth Nat.sub rows_J2000 rows_B1950
+       row_J2000_1 row_J2000_2 row_J2000_3 row_J2000_4 row_J2000_5 row_J2000_6
+       row_B1950_1 row_B1950_2 row_B1950_3 row_B1950_4 row_B1950_5 row_B1950_6
+       r_psi r_st r_ct r_phi vx vy vz fst snd D2R R2D HALFPI
+       doc_eps doc_alphaG doc_deltaG doc_lomega doc_alphaE doc_deltaE doc_Eomega
+       sdss_dir eq_in_sdss_frame sdss_unit sdss_node sdss_etapole sdss_center_ra sdss_center_dec
+       xyz_model eq2xyz_R ang_in Rsqr].
+
+Ltac c09_cert := c09_unfold; interval with (i_prec 80).
+Ltac c09_refute := c09_unfold; apply Rlt_not_le; interval with (i_prec 80).
